@@ -125,9 +125,10 @@ func c13K() *ir.Module {
 // that such a cache is cold for them in EVERY explored schedule, not only in the first one.
 var c13salt int
 
-func c13salted(text string) string {
-	n := c13salt
-	r := strings.NewReplacer("SALTCC", fmt.Sprint(64+n%900), "SALTN", fmt.Sprint(n), "SALTAL", fmt.Sprint(1<<uint(n%7)))
+func c13salted(text string) string { return c13saltedN(text, c13salt) }
+
+func c13saltedN(text string, n int) string {
+	r := strings.NewReplacer("SALTCC", fmt.Sprint(64+n%65000), "SALTN", fmt.Sprint(n), "SALTAL", fmt.Sprint(n+1))
 	return r.Replace(text)
 }
 
